@@ -187,6 +187,14 @@ fn show_parts_acc<T: PurlShape + Clone>(p: &GenericPurl<T>) -> String {
     if &*raw.name != p.name() || raw.qualifiers != *p.qualifiers() {
         anomalies.push_str("!acc");
     }
+    // Display writes the canonical string whatever width / precision / alignment the caller's format spec carries
+    let ty = p.package_type().package_type();
+    if !ty.is_empty() && ty.chars().all(|c| c.is_ascii_alphanumeric() || matches!(c, '.' | '+' | '-')) {
+        let plain = p.to_string();
+        if format!("{:^14.2}", p) != plain || format!("{:<9}", p) != plain || format!("{:.3}", p) != plain || format!("{:>+#012}", p) != plain {
+            anomalies.push_str("!fmtspec");
+        }
+    }
     format!(
         "P{{ty={};ns={};name={};ver={};q={};sub={}}}{}",
         h(&p.package_type().package_type()),
@@ -1691,12 +1699,14 @@ fn op_serde(rest: &[&str]) -> Result<String, String> {
                         let as_str = v.as_str().map(|x| x.to_string());
                         let back = serde_json::from_str::<GenericPurl<T>>(&j);
                         format!(
-                            "OK:{} json={} isstr={} jstr={} s={} back={}",
+                            "OK:{} json={} isstr={} jstr={} s={} rec1={} rec0={} back={}",
                             show_parts_acc(&p),
                             h(&j),
                             tf(as_str.is_some()),
                             opt(as_str.as_deref()),
                             h(&p.to_string()),
+                            recser::record(&p, true),
+                            recser::record(&p, false),
                             match back {
                                 Ok(q) => format!("OK:{}:{}", show_parts_acc(&q), tf(q == p)),
                                 Err(e) => format!("ERR:serde:{}", h(&e.to_string())),
@@ -1718,9 +1728,94 @@ fn op_serde(rest: &[&str]) -> Result<String, String> {
             let t = pkg_of_ident(arg(rest, 2)?)?;
             let j = serde_json::to_string(&t).unwrap();
             let back: Result<PackageType, _> = serde_json::from_str(&j);
-            Ok(format!("json={} back={}", h(&j), tf(back.ok() == Some(t))))
+            Ok(format!("json={} back={} rec1={} rec0={}", h(&j), tf(back.ok() == Some(t)), recser::record(&t, true), recser::record(&t, false)))
         },
         x => Err(format!("bad serde op {}", x)),
+    }
+}
+
+/// a `Serializer` that only records which data-model method was called (and with what), human-readable or not
+#[cfg(feature = "serde")]
+mod recser {
+    use serde::ser::{Impossible, Serialize, Serializer};
+    type E = serde::de::value::Error;
+    pub struct Rec(pub bool);
+    fn hexs(b: &[u8]) -> String {
+        b.iter().map(|x| format!("{:02x}", x)).collect()
+    }
+    macro_rules! other {
+        ($($m:ident($t:ty)),*) => { $(fn $m(self, _v: $t) -> Result<String, E> { Ok(concat!("other:", stringify!($m)).to_string()) })* };
+    }
+    impl Serializer for Rec {
+        type Ok = String;
+        type Error = E;
+        type SerializeSeq = Impossible<String, E>;
+        type SerializeTuple = Impossible<String, E>;
+        type SerializeTupleStruct = Impossible<String, E>;
+        type SerializeTupleVariant = Impossible<String, E>;
+        type SerializeMap = Impossible<String, E>;
+        type SerializeStruct = Impossible<String, E>;
+        type SerializeStructVariant = Impossible<String, E>;
+        other!(serialize_bool(bool), serialize_i8(i8), serialize_i16(i16), serialize_i32(i32), serialize_i64(i64),
+            serialize_u8(u8), serialize_u16(u16), serialize_u32(u32), serialize_u64(u64), serialize_f32(f32), serialize_f64(f64),
+            serialize_char(char));
+        fn serialize_str(self, v: &str) -> Result<String, E> {
+            Ok(format!("str:{}", hexs(v.as_bytes())))
+        }
+        fn serialize_bytes(self, v: &[u8]) -> Result<String, E> {
+            Ok(format!("bytes:{}", hexs(v)))
+        }
+        fn serialize_none(self) -> Result<String, E> {
+            Ok("other:none".into())
+        }
+        fn serialize_some<T: ?Sized + Serialize>(self, _v: &T) -> Result<String, E> {
+            Ok("other:some".into())
+        }
+        fn serialize_unit(self) -> Result<String, E> {
+            Ok("other:unit".into())
+        }
+        fn serialize_unit_struct(self, _n: &'static str) -> Result<String, E> {
+            Ok("other:unit_struct".into())
+        }
+        fn serialize_unit_variant(self, _n: &'static str, _i: u32, v: &'static str) -> Result<String, E> {
+            Ok(format!("variant:{}", hexs(v.as_bytes())))
+        }
+        fn serialize_newtype_struct<T: ?Sized + Serialize>(self, _n: &'static str, _v: &T) -> Result<String, E> {
+            Ok("other:newtype_struct".into())
+        }
+        fn serialize_newtype_variant<T: ?Sized + Serialize>(self, _n: &'static str, _i: u32, _v: &'static str, _x: &T) -> Result<String, E> {
+            Ok("other:newtype_variant".into())
+        }
+        fn serialize_seq(self, _l: Option<usize>) -> Result<Self::SerializeSeq, E> {
+            Err(serde::ser::Error::custom("seq"))
+        }
+        fn serialize_tuple(self, _l: usize) -> Result<Self::SerializeTuple, E> {
+            Err(serde::ser::Error::custom("tuple"))
+        }
+        fn serialize_tuple_struct(self, _n: &'static str, _l: usize) -> Result<Self::SerializeTupleStruct, E> {
+            Err(serde::ser::Error::custom("tuple_struct"))
+        }
+        fn serialize_tuple_variant(self, _n: &'static str, _i: u32, _v: &'static str, _l: usize) -> Result<Self::SerializeTupleVariant, E> {
+            Err(serde::ser::Error::custom("tuple_variant"))
+        }
+        fn serialize_map(self, _l: Option<usize>) -> Result<Self::SerializeMap, E> {
+            Err(serde::ser::Error::custom("map"))
+        }
+        fn serialize_struct(self, _n: &'static str, _l: usize) -> Result<Self::SerializeStruct, E> {
+            Err(serde::ser::Error::custom("struct"))
+        }
+        fn serialize_struct_variant(self, _n: &'static str, _i: u32, _v: &'static str, _l: usize) -> Result<Self::SerializeStructVariant, E> {
+            Err(serde::ser::Error::custom("struct_variant"))
+        }
+        fn is_human_readable(&self) -> bool {
+            self.0
+        }
+    }
+    pub fn record<X: Serialize>(x: &X, human: bool) -> String {
+        match x.serialize(Rec(human)) {
+            Ok(s) => s,
+            Err(e) => format!("err:{}", hexs(e.to_string().as_bytes())),
+        }
     }
 }
 
@@ -1958,14 +2053,145 @@ fn probe() {
         Qualifiers::default().insert("", "v").is_ok()
     );
     println!(
-        "{{\"sets\":{{{}}},\"typeChars\":[{}],\"keyChars\":[{}],{},\"knownKeys\":[{}],\"checksumKey\":{:?}}}",
+        "{{\"sets\":{{{}}},\"typeChars\":[{}],\"keyChars\":[{}],{},\"knownKeys\":[{}],\"checksumKey\":{:?}{}}}",
         sets.join(","),
         type_ok.iter().map(|x| x.to_string()).collect::<Vec<_>>().join(","),
         key_ok.iter().map(|x| x.to_string()).collect::<Vec<_>>().join(","),
         empties,
         KNOWN_KEYS.iter().map(|k| format!("{:?}", k)).collect::<Vec<_>>().join(","),
         <Checksum as well_known::KnownQualifierKey>::KEY,
+        probe_more(),
     );
+}
+
+/// further observations of the compiled code (finite batteries; used when the translator cannot read the
+/// corresponding source item, and to cross-check it when it can)
+#[cfg(not(feature = "package-type"))]
+fn probe_more() -> String {
+    String::new()
+}
+
+#[cfg(feature = "package-type")]
+fn probe_more() -> String {
+    use purl::{ParseError, PurlField};
+    let hexs = |x: &str| -> String { x.bytes().map(|b| format!("{:02x}", b)).collect() };
+    // (1) which scalar values the pypi rule takes for a separator
+    let mut dash = vec![];
+    for cp in 0u32..0x110000 {
+        if let Some(c) = char::from_u32(cp) {
+            if let Ok(p) = Purl::new(PackageType::PyPI, format!("a{}b", c)) {
+                if p.name() == "a-b" {
+                    dash.push(cp.to_string());
+                }
+            }
+        }
+    }
+    // (2) the Display text of every error value
+    let fields = [
+        ("PackageType", PurlField::PackageType),
+        ("Namespace", PurlField::Namespace),
+        ("Name", PurlField::Name),
+        ("Version", PurlField::Version),
+        ("Subpath", PurlField::Subpath),
+    ];
+    let mut errs = vec![];
+    errs.push(format!("\"Parse.UnsupportedUrlScheme\":\"{}\"", hexs(&ParseError::UnsupportedUrlScheme.to_string())));
+    errs.push(format!("\"Parse.InvalidPackageType\":\"{}\"", hexs(&ParseError::InvalidPackageType.to_string())));
+    errs.push(format!("\"Parse.InvalidQualifier\":\"{}\"", hexs(&ParseError::InvalidQualifier.to_string())));
+    errs.push(format!("\"Parse.InvalidEscape\":\"{}\"", hexs(&ParseError::InvalidEscape.to_string())));
+    for (n, f) in fields.iter() {
+        errs.push(format!("\"Parse.MissingRequiredField.{}\":\"{}\"", n, hexs(&ParseError::MissingRequiredField(*f).to_string())));
+        errs.push(format!("\"Pkg.MissingRequiredField.{}\":\"{}\"", n, hexs(&PackageError::MissingRequiredField(*f).to_string())));
+        errs.push(format!(
+            "\"Pkg.Parse.MissingRequiredField.{}\":\"{}\"",
+            n,
+            hexs(&PackageError::Parse(ParseError::MissingRequiredField(*f)).to_string())
+        ));
+    }
+    errs.push(format!("\"Pkg.Parse.InvalidEscape\":\"{}\"", hexs(&PackageError::Parse(ParseError::InvalidEscape).to_string())));
+    errs.push(format!("\"Pkg.UnsupportedType\":\"{}\"", hexs(&PackageError::UnsupportedType.to_string())));
+    errs.push(format!("\"UnsupportedPackageType\":\"{}\"", hexs(&purl::UnsupportedPackageType.to_string())));
+    // (3) combined names: every string of length <= 4 over an alphabet of separators and look-alikes, every type
+    let alpha = ['a', '/', ':', '@', '[', ']', '.', 'v', '2'];
+    let mut strings = vec![String::new()];
+    let mut level = vec![String::new()];
+    for _ in 0..4 {
+        let mut next = vec![];
+        for s in &level {
+            for c in alpha.iter() {
+                let mut t = s.clone();
+                t.push(*c);
+                next.push(t);
+            }
+        }
+        strings.extend(next.iter().cloned());
+        level = next;
+    }
+    let types = [
+        PackageType::Cargo,
+        PackageType::Gem,
+        PackageType::Golang,
+        PackageType::Maven,
+        PackageType::Npm,
+        PackageType::NuGet,
+        PackageType::PyPI,
+    ];
+    let mut comb = vec![];
+    for t in types.iter() {
+        let mut rows = vec![];
+        for s in &strings {
+            let b = Purl::builder_with_combined_name(*t, s.as_str());
+            rows.push(format!("[\"{}\",\"{}\",\"{}\"]", hexs(s), hexs(&b.parts.namespace), hexs(&b.parts.name)));
+        }
+        let mut joins = vec![];
+        for ns in ["", "a", "a/b", "a:b", "@s"].iter() {
+            for name in ["n", "n:m", "x.y", "n@1"].iter() {
+                let mut b = Purl::builder(*t, *name);
+                if !ns.is_empty() {
+                    b = b.with_namespace(*ns);
+                }
+                if let Ok(p) = b.build() {
+                    joins.push(format!(
+                        "[\"{}\",\"{}\",\"{}\"]",
+                        hexs(p.namespace().unwrap_or("")),
+                        hexs(p.name()),
+                        hexs(&p.combined_name())
+                    ));
+                }
+            }
+        }
+        comb.push(format!("\"{}\":{{\"split\":[{}],\"join\":[{}]}}", ident_of_pkg(*t), rows.join(","), joins.join(",")));
+    }
+    // (4) the scheme: every single-character substitution, insertion and deletion in the first four characters
+    let mut sch = vec![];
+    let base: Vec<char> = "pkg:".chars().collect();
+    let mut chars: Vec<char> = (0u8..128).map(|b| b as char).collect();
+    chars.extend(['\u{ef}', '\u{ff1a}', '\u{212a}', '\u{a789}']);
+    let mut heads: Vec<String> = vec!["pkg:".into(), "".into(), "pkg".into(), "pk:".into(), "kg:".into(), "pg:".into(), "PKG:".into(), "Pkg:".into()];
+    for pos in 0..4 {
+        for c in &chars {
+            let mut v = base.clone();
+            v[pos] = *c;
+            heads.push(v.iter().collect());
+            let mut w = base.clone();
+            w.insert(pos, *c);
+            heads.push(w.iter().collect());
+        }
+    }
+    heads.sort();
+    heads.dedup();
+    for hd in &heads {
+        let r = GenericPurl::<String>::from_str(&format!("{}t/n", hd));
+        let refused_for_scheme = matches!(r, Err(ParseError::UnsupportedUrlScheme));
+        sch.push(format!("[\"{}\",{}]", hexs(hd), !refused_for_scheme));
+    }
+    format!(
+        ",\"dashObs\":[{}],\"errorTexts\":{{{}}},\"combinedObs\":{{{}}},\"schemeObs\":[{}]",
+        dash.join(","),
+        errs.join(","),
+        comb.join(","),
+        sch.join(",")
+    )
 }
 
 fn main() {
